@@ -238,7 +238,7 @@ func (o *Opt) Tag() string {
 		}
 	}
 	if o.Base != 0 {
-		tagKV(&sb, "base", strconv.Itoa(o.Base))
+		tagKV(&sb, "base", baseTag(o.Base))
 	}
 	if o.NoUnquote {
 		tagKV(&sb, "unquote", "false")
@@ -309,7 +309,7 @@ func (a *PosArg) Tag() string {
 		tagKV(&sb, "required", a.Req)
 	}
 	if a.Base != 0 {
-		tagKV(&sb, "base", strconv.Itoa(a.Base))
+		tagKV(&sb, "base", baseTag(a.Base))
 	}
 	if a.Desc != "" {
 		tagKV(&sb, "description", a.Desc)
@@ -507,11 +507,25 @@ func setInitial(o *Opt) {
 	}
 }
 
+func baseTag(b int) string {
+	if b == BaseAuto {
+		return "0"
+	}
+	return strconv.Itoa(b)
+}
+
 // applyRef applies one textual value to a shadow/initial value with the semantics the property states:
 // scalar = replace, slice = append, map = insert/overwrite. It returns false if the text has no reference value.
 func applyRef(v reflect.Value, t TypeSpec, base int, txt string) bool {
 	switch t.W {
 	case WScalar:
+		if t.K == KBag {
+			// the accumulating unmarshaler appends to what the field holds
+			b := v.Interface().(Bag)
+			b.items = append(append([]string{}, b.items...), txt)
+			v.Set(reflect.ValueOf(b))
+			return true
+		}
 		r := RefScalar(t.K, base, txt)
 		if !r.HasVal {
 			return false
